@@ -73,6 +73,12 @@ Definition delivers (s : st) (pe : peer) (en : rent) (rf : rfeat) (lf : lfeat) (
   | Some r =>
       match d_body d with
       | BResult e => Some (r, e, true)                     (* a result referencing r, data = its error number *)
+      | BResultWith _ => None                              (* a result without resultData is rejected *)
+      | BCmd c (PResult e) =>
+          (* node management processes a resultData element as a result whatever the classifier says
+             (unless a write is stopped at the write gate); other features reject it *)
+          if is_nm lf && match c with CWrite => write_gate s lf (rf_addr en rf) FN_RESULT | _ => true end
+          then Some (r, e, true) else None
       | BCmd CReply pl =>
           if accepted s pe en rf lf CReply pl then Some (r, pl_val pl, false) else None
       | BCmd _ _ => None
